@@ -510,7 +510,7 @@ Definition rewards_lower_unguarded : Prop :=
 (* B delegates 19, six slashes of 10 %, A delegates 2, B undelegates its displayed 10: the validator's total is 0
    while A holds 2.0; ten years later A is shown 0 where 2 * 10 % * 0.9 * 10 = 1.8 tokens are due *)
 Definition dz_su : setup :=
-  mkSetup 60 100000000000000000 [(1, 100000000000000000)] [(1, 1000); (2, 1000)] [1; 2] 1571797419879305533.
+  mkSetup 60 100000000000000000 [(1, 100000000000000000)] [(1, 1000); (2, 1000)] [1; 2] 1571797419879305533 USTAKE XDEN.
 Definition dz_ops : list op :=
   [Delegate 2 1 19 true; Slash 1 100000000000000000; Slash 1 100000000000000000; Slash 1 100000000000000000;
    Slash 1 100000000000000000; Slash 1 100000000000000000; Slash 1 100000000000000000;
